@@ -24,9 +24,10 @@ const (
 
 var propRules = map[string]*PropSpec{
 	"C01": {
-		Rules:       []string{"A1.kernel", "A6.kernel", "F1", "F8.bitmap", "F8.run", "F10", "F3.32", "A1.api32", "A2.32", "A3.32", "F11", "F8.scratch", "G1", "F13.32", "IDX1", "RES1", "A2.stale", "LEN1", "U1", "RCV1", "GAL1", "CACHE1"},
+		Rules:       []string{"A1.kernel", "A6.kernel", "F1", "F8.bitmap", "F8.run", "F10", "F3.32", "A1.api32", "A2.32", "A3.32", "F11", "F8.scratch", "G1", "F13.32", "IDX1", "RES1", "A2.stale", "LEN1", "U1", "RCV1", "GAL1", "CACHE1", "U10"},
 		Explanation: explBase + " C01: kernels never write operands, results are fresh, every kind pairing is dispatched, results are re-typed at the 4096 threshold and run results re-minimised, empty results are elided, x.Op(x) is guarded.",
 		Decided: []string{
+			"no 16-bit sum or difference is compared as it is (it wraps at 65535 / 0); start+length of one interval and two triaged key±1 comparisons between strictly ordered keys are the only sites",
 			"where the container returned by an in-place kernel is kept, the old receiver is not consulted afterwards (cardinality/emptiness of a container that is no longer in the bitmap)",
 			"the position answered by a galloping search is compared with a bound before it is used as an index (directly, or as the loop's position variable)",
 			"a merge loop that carries the element under its cursor in a local reloads it whenever the cursor moves (including galloping jumps)",
@@ -47,9 +48,10 @@ var propRules = map[string]*PropSpec{
 		Technique:  techMix,
 	},
 	"C02": {
-		Rules:       []string{"A2.32", "A3.32", "F3.32", "F8.bitmap", "F8.run", "F5", "F8.scratch", "A4", "F13.32", "U6", "RES1", "A2.stale", "A4.clear", "F8.point", "R3", "RCV1", "CACHE1"},
+		Rules:       []string{"A2.32", "A3.32", "F3.32", "F8.bitmap", "F8.run", "F5", "F8.scratch", "A4", "F13.32", "U6", "RES1", "A2.stale", "A4.clear", "F8.point", "R3", "RCV1", "CACHE1", "U11"},
 		Explanation: explBase + " C02: every mutator obtains its container through the copy-before-write gate, stores only owned containers, drops emptied chunks, keeps flags aligned with moved containers, re-types/minimises results and inserts at a position searched in the same table.",
 		Decided: []string{
+			"end-1 of a caller-supplied unsigned range end is computed only where the end is known to be positive (behind the empty-range exit, a zero test or a clamp)",
 			"where the container returned by an in-place kernel is kept, the old receiver is not consulted afterwards (cardinality/emptiness of a container that is no longer in the bitmap)",
 			"the container returned by an in-place kernel applied to a slot's container is stored back into the table (CheckedAdd/CheckedRemove/Add/Remove/AddRange ...)",
 			"every payload write of Add/CheckedAdd/Remove/CheckedRemove/AddRange/RemoveRange/Flip/AddMany goes through an owned container (gate or fresh)",
@@ -63,9 +65,11 @@ var propRules = map[string]*PropSpec{
 		Technique:  techOwn,
 	},
 	"C03": {
-		Rules:       []string{"A1.api32", "A1.kernel", "F1", "F11", "G1", "F3.32", "F3.64", "A1.api64", "U6", "EQ1", "IDX1", "F2", "U5", "CUR1"},
+		Rules:       []string{"A1.api32", "A1.kernel", "F1", "F11", "G1", "F3.32", "F3.64", "A1.api64", "U6", "EQ1", "IDX1", "F2", "U5", "CUR1", "LOW1", "U11"},
 		Explanation: explBase + " C03: the clause 'queries never modify the bitmap' is decided for every exported read-only function; kind dispatch of the query paths is exhaustive.",
 		Decided: []string{
+			"end-1 of a caller-supplied unsigned range end is computed only where the end is known to be positive (behind the empty-range exit, a zero test or a clamp)",
+			"Rank asks a chunk (bucket) found by scanning positions about the low half of its argument only where the scan has established that the chunk's key equals the argument's high half",
 			"an iterator glues the key of the current chunk/bucket to what the inner iterator yields only when no reload of the cursor lies between the two reads",
 			"queries use no package-level scratch memory",
 			"no mutator leaves an empty chunk/bucket behind (IsEmpty, Minimum, Maximum rely on it)",
@@ -76,9 +80,10 @@ var propRules = map[string]*PropSpec{
 		Technique:  techOwn,
 	},
 	"C04": {
-		Rules:       []string{"F7", "F1", "A1.api32", "F12", "U4", "R2", "LP1", "U5", "CUR1", "CUR2", "CUR3", "CUR4", "CUR5"},
+		Rules:       []string{"F7", "F1", "A1.api32", "F12", "U4", "R2", "LP1", "U5", "CUR1", "CUR2", "CUR3", "CUR4", "CUR5", "U10"},
 		Explanation: explBase + " C04: the early-termination clause and the purity of iteration are decided; kind dispatch in iterator init / Iterate / Ranges is exhaustive.",
 		Decided: []string{
+			"no 16-bit sum or difference is compared as it is (it wraps at 65535 / 0); start+length of one interval and two triaged key±1 comparisons between strictly ordered keys are the only sites",
 			"the batch iterators ask the inner iterator for more only behind a test that the caller's buffer has room, so that a zero answer can only mean an exhausted chunk",
 			"an iterator glues the key of the current chunk/bucket to what the inner iterator yields only when no reload of the cursor lies between the two reads",
 			"every move of the inner iterator of the eager iterators is followed, before returning, by an exhaustion test that may reload the cursor",
@@ -92,9 +97,10 @@ var propRules = map[string]*PropSpec{
 		Technique:  "static analysis: CFG reachability after the stop edge (go/ssa), AST type-switch exhaustiveness, ownership summaries",
 	},
 	"C05": {
-		Rules:       []string{"B1", "B2", "B5", "L2", "L5", "A4", "F8.bitmap", "A8", "G1", "F8.scratch", "F2.repair", "R1", "U3", "PT2", "L1", "B7", "B8", "F13.32", "RES1", "F8.point", "U1"},
+		Rules:       []string{"B1", "B2", "B5", "L2", "L5", "A4", "F8.bitmap", "A8", "G1", "F8.scratch", "F2.repair", "R1", "U3", "PT2", "L1", "B7", "B8", "F13.32", "RES1", "F8.point", "U1", "T1"},
 		Explanation: explBase + " C05: error propagation on every encode/decode path, byte accounting of writers and readers, bounded reads, agreement of size prediction / writer / reader on the offset-header predicate and payload sizes, and flagging of zero-copy payloads.",
 		Decided: []string{
+			"decoding into a previously used bitmap re-slices each of the receiver's three tables only behind a capacity test on that same table",
 			"no decoder wraps the caller's stream in a read-ahead buffer (a reader consumes exactly its own bytes)",
 			"pooled readers are not touched after they went back to the pool, and only values of the pool's own type are put back",
 			"ToBase64 and FromBase64 use the same alphabet",
@@ -150,9 +156,10 @@ var propRules = map[string]*PropSpec{
 		Technique:  "static analysis: taint propagation of caller-owned slices over go/ssa + ownership typestate",
 	},
 	"C09": {
-		Rules:       []string{"F3.32", "F8.bitmap", "F8.run", "F2", "V1", "V2", "A6.kernel", "A2.32", "A3.32", "F8.scratch", "A2.64", "A3.64", "F3.64", "L2", "L5", "F2.repair", "R1", "B5", "F13.32", "A9", "RES1", "U1", "V3", "F8.point", "LEN1", "R3"},
+		Rules:       []string{"F3.32", "F8.bitmap", "F8.run", "F2", "V1", "V2", "A6.kernel", "A2.32", "A3.32", "F8.scratch", "A2.64", "A3.64", "F3.64", "L2", "L5", "F2.repair", "R1", "B5", "F13.32", "A9", "RES1", "U1", "V3", "F8.point", "LEN1", "R3", "U10"},
 		Explanation: explBase + " C09: the producer side of each Validate conjunct that has a structural form (no empty chunk stored, array/bitmap threshold, runs minimised, lazy cardinality repaired) and the validator's own conjunct table.",
 		Decided: []string{
+			"no 16-bit sum or difference is compared as it is (it wraps at 65535 / 0); start+length of one interval and two triaged key±1 comparisons between strictly ordered keys are the only sites",
 			"roaring64 buckets obey the same ownership and no-empty-bucket rules",
 			"writer, reader and size predictor agree on header and payload sizes (a written bitmap can be read back)",
 			"no may-empty result is stored without an emptiness test", "bitmap containers are returned only behind cardinality > 4096; run containers reach slots minimised", "lazy kernels that write a bitmap invalidate or recompute the cached cardinality and every lazy aggregate is repaired before it is returned", "Validate calls every per-kind validator on every container and each listed conjunct is present", "containers are never shared unflagged between bitmaps (a later mutation of one would silently invalidate the other)"},
@@ -160,9 +167,10 @@ var propRules = map[string]*PropSpec{
 		Technique:  techMix,
 	},
 	"C10": {
-		Rules:       []string{"B1", "B4", "B5", "T1", "V1", "V2", "U1", "G1", "U3", "L4", "B6", "UNS1", "PT2", "B8", "T2", "V3", "F5.neg", "PT", "A8", "A1.bsi"},
+		Rules:       []string{"B1", "B4", "B5", "T1", "V1", "V2", "U1", "G1", "U3", "L4", "B6", "UNS1", "PT2", "B8", "T2", "V3", "F5.neg", "PT", "A8", "A1.bsi", "U10"},
 		Explanation: explBase + " C10: decoder error discipline, Must* wrappers, bounded reads, size fields bounded before allocation, validator conjuncts (incl. the wrap bound on every run), no 16-bit arithmetic in the frozen reader.",
 		Decided: []string{
+			"no 16-bit sum or difference is compared as it is (it wraps at 65535 / 0); start+length of one interval and two triaged key±1 comparisons between strictly ordered keys are the only sites",
 			"FrozenView evaluates all 256 type-code values: each is either built or rejected",
 			"a decoded length extends one of the receiver's arrays only behind a capacity test on that same array",
 			"no decoder consults cap() of the caller's bytes",
@@ -174,9 +182,10 @@ var propRules = map[string]*PropSpec{
 		Technique:  techErr + "; taint of decoded sizes",
 	},
 	"C11": {
-		Rules:       []string{"F9", "F2", "A1.api32", "A1.slices", "A2.32", "A3.32", "A6.kernel", "U1", "F8.scratch", "A2.64", "A3.64", "F2.repair", "U3", "PT2", "P6", "P2", "LP2", "LEN1", "IDX1", "F3.32", "RES1", "GAL1", "CACHE1"},
+		Rules:       []string{"F9", "F2", "A1.api32", "A1.slices", "A2.32", "A3.32", "A6.kernel", "U1", "F8.scratch", "A2.64", "A3.64", "F2.repair", "U3", "PT2", "P6", "P2", "LP2", "LEN1", "IDX1", "F3.32", "RES1", "GAL1", "CACHE1", "SW1"},
 		Explanation: explBase + " C11: singleton behaviour of the aggregate siblings, lazy->repair discipline, inputs and the caller's slice unchanged, scratch containers never end up in the result.",
 		Decided: []string{
+			"at no call is an argument handed to another parameter than the one it is named after while that parameter exists with the same type (the start/last bounds of the per-range merge kernels, found-set/filter-set)",
 			"a merge loop that carries the element under its cursor in a local reloads it whenever the cursor moves (including galloping jumps)",
 			"the position answered by a galloping search is compared with a bound before it is used as an index (directly, or as the loop's position variable)",
 			"roaring64 aggregates store only owned or properly shared buckets",
@@ -185,9 +194,11 @@ var propRules = map[string]*PropSpec{
 		Technique:  techMix,
 	},
 	"C12": {
-		Rules:       []string{"P1", "P3", "P4", "PT", "A1.api32", "A2.32", "A3.32", "G1", "U3", "PT2", "P6", "A2.64", "A3.64", "P2", "A1.bsi", "U1", "PC2", "F10.bsi", "A1.slices"},
+		Rules:       []string{"P1", "P3", "P4", "PT", "A1.api32", "A2.32", "A3.32", "G1", "U3", "PT2", "P6", "A2.64", "A3.64", "P2", "A1.bsi", "U1", "PC2", "F10.bsi", "A1.slices", "LEN1", "CACHE1", "SW1"},
 		Explanation: explBase + " C12: protocol skeleton only: WaitGroup pairing, single close by the creator, range-workers released on every path, pool typestate, workers never change input contents.",
 		Decided: []string{
+			"at no call is an argument handed to another parameter than the one it is named after while that parameter exists with the same type (the start/last bounds of the per-range merge kernels, found-set/filter-set)",
+			"the per-range merge kernels of ParOr (lazyOrOnRange, lazyIOrOnRange, orOnRange, iorOnRange) keep their cached table length in step with insertions and reload the cached key whenever a cursor moves: otherwise the answer depends on how many keys a worker's range spans, i.e. on the worker count",
 			"no computed key is truncated into the key type in ParOr's chunk arithmetic",
 			"no worker goroutine assigns a variable captured from its spawner (results travel over channels, atomics or distinct slice elements)",
 			"the task object shared by BSI workers is never written by them",
@@ -219,9 +230,10 @@ var propRules = map[string]*PropSpec{
 		Technique:  techMix,
 	},
 	"C15": {
-		Rules:       []string{"U1", "A1.api32", "F3.32", "F8.bitmap", "F8.run", "F2", "B8", "U4", "U5", "LP1", "GAL1"},
+		Rules:       []string{"U1", "A1.api32", "F3.32", "F8.bitmap", "F8.run", "F2", "B8", "U4", "U5", "LP1", "GAL1", "U10"},
 		Explanation: explBase + " C15: kernels can express the out-of-chunk sentinels (no 16-bit wrap in the neighbour kernels and drivers) and the queries are pure. Everything else about these functions is value-level.",
 		Decided: []string{
+			"no 16-bit sum or difference is compared as it is (it wraps at 65535 / 0); start+length of one interval and two triaged key±1 comparisons between strictly ordered keys are the only sites",
 			"the position answered by a galloping search is compared with a bound before it is used as an index (directly, or as the loop's position variable)",
 			"no (value, error) result is used only on the error side of its test (the inverted check that made the walk past the last chunk answer -1)",
 			"no mutator leaves an empty chunk behind (the drivers ask each chunk for its minimum/maximum and ignore the error)",
@@ -233,9 +245,10 @@ var propRules = map[string]*PropSpec{
 		Technique:  "static analysis: integer-width rule over go/ssa with a triaged allow-list; ownership summaries",
 	},
 	"C16": {
-		Rules:       []string{"A1.api32", "A3.32", "A6.kernel", "F5", "F6", "A4", "F3.32", "F8.bitmap", "F8.run", "F8.scratch", "B6", "A9", "U8", "F5.neg", "F3.64", "U1"},
+		Rules:       []string{"A1.api32", "A3.32", "A6.kernel", "F5", "F6", "A4", "F3.32", "F8.bitmap", "F8.run", "F8.scratch", "B6", "A9", "U8", "F5.neg", "F3.64", "U1", "U11"},
 		Explanation: explBase + " C16: AddOffset/Flip/ToDense leave b unchanged; results hold only fresh or properly shared containers; static Flip inserts at the answer's index; addOffset nil discipline; FromDense(no copy) never writes the caller's words; shifted parts are re-typed.",
 		Decided: []string{
+			"end-1 of a caller-supplied unsigned range end is computed only where the end is known to be positive (behind the empty-range exit, a zero test or a clamp)",
 			"the two halves produced by addOffset do not share spare capacity of one allocation",
 			"FromDense never consults cap() of the caller's words (nothing beyond len is read)",
 			"ToDense/WriteDenseTo never convert a value that carries a chunk base to int (32 bits on 386/arm)",
@@ -244,9 +257,12 @@ var propRules = map[string]*PropSpec{
 		Technique:  techMix,
 	},
 	"C17": {
-		Rules:       []string{"A2.64", "A3.64", "F3.64", "F5", "F9", "A1.api64", "A5", "F12", "P6", "P2", "U1", "F10", "EQ1", "R2", "IDX1", "A2.stale", "LEN1", "F5.neg", "R3", "U5", "CUR1", "CUR2", "CUR3", "CUR4", "GAL1", "CACHE1", "CUR5"},
+		Rules:       []string{"A2.64", "A3.64", "F3.64", "F5", "F9", "A1.api64", "A5", "F12", "P6", "P2", "U1", "F10", "EQ1", "R2", "IDX1", "A2.stale", "LEN1", "F5.neg", "R3", "U5", "CUR1", "CUR2", "CUR3", "CUR4", "GAL1", "CACHE1", "CUR5", "SW1", "LOW1", "U11"},
 		Explanation: explBase + " C17: the 64-bit bitmap's bucket table obeys the same ownership discipline (bucket = container), drops emptied buckets, inserts at the right index and its aggregates return fresh bitmaps.",
 		Decided: []string{
+			"end-1 of a caller-supplied unsigned range end is computed only where the end is known to be positive (behind the empty-range exit, a zero test or a clamp)",
+			"Rank asks a chunk (bucket) found by scanning positions about the low half of its argument only where the scan has established that the chunk's key equals the argument's high half",
+			"at no call is an argument handed to another parameter than the one it is named after while that parameter exists with the same type (the start/last bounds of the per-range merge kernels, found-set/filter-set)",
 			"the batch iterators ask the inner iterator for more only behind a test that the caller's buffer has room, so that a zero answer can only mean an exhausted chunk",
 			"a merge loop that carries the element under its cursor in a local reloads it whenever the cursor moves (including galloping jumps)",
 			"an iterator glues the key of the current chunk/bucket to what the inner iterator yields only when no reload of the cursor lies between the two reads",
@@ -257,9 +273,10 @@ var propRules = map[string]*PropSpec{
 		Technique:  techOwn,
 	},
 	"C18": {
-		Rules:       []string{"B1", "B2", "B5", "T1", "L1", "V1", "F3.64", "A8", "G1", "R1", "U3", "PT2", "B7", "B8", "F5.neg", "L2", "A2.64", "A3.64"},
+		Rules:       []string{"B1", "B2", "B5", "T1", "L1", "V1", "F3.64", "A8", "G1", "R1", "U3", "PT2", "B7", "B8", "F5.neg", "L2", "A2.64", "A3.64", "F8.point", "F8.bitmap", "F8.run"},
 		Explanation: explBase + " C18: error propagation and byte accounting of the 64-bit writers/readers, bounded reads, the bound on the bucket count before allocation, agreement of writer/readers/size predictor on the framing, validator wiring, no empty bucket stored.",
 		Decided: []string{
+			"the 32-bit kernels that build a bucket's containers keep the kind the writer accepts (array up to 4096 values, bitmap above, minimised runs): point updates of a bucket go through the kind-preserving kernels, and a bitmap container is handed out only behind a cardinality test — otherwise WriteTo of a library-made 64-bit bitmap refuses the container half-way through the stream",
 			"every decoder resets or reassigns all three table arrays of the receiver on every successful path (decoding into a used bitmap keeps nothing)",
 			"roaring64 UnmarshalBinary/ReadFrom keep no pointer into the caller's slice",
 			"decoding uses no package-level scratch memory",
